@@ -28,6 +28,10 @@ class FloorSTE(torch.autograd.Function):
     """Torch autograd function that turns a number of channels ch into its next integer multiple of N"""
     @staticmethod
     def forward(ctx, ch, N):
+        # ch is a tensor for NAS-able layers and a plain int for layers costed with their
+        # static sizes (full_cost=True)
+        if not isinstance(ch, torch.Tensor):
+            ch = torch.tensor(float(ch))
         return torch.floor((ch + N - 1) / N)
 
     @staticmethod
